@@ -23,6 +23,35 @@ package fox
 //@   ensures router: s.router != nil ==> s.router.ignoreTrailingSlash == enable && s.router.redirectTrailingSlash == (enable ? false : old(s.router.redirectTrailingSlash))
 //@   ensures route: s.route != nil ==> s.route.ignoreTrailingSlash == enable && s.route.redirectTrailingSlash == (enable ? false : old(s.route.redirectTrailingSlash))
 
+//@ -- global options that install a handler: nil is rejected with ErrInvalidConfig and changes nothing
+//@ func WithNoRouteHandler$1 props C19
+//@   requires s.router != nil
+//@   modifies s.router.noRouteBase
+//@   ensures rejected: handler == nil ==> result != nil && errIs(result, ErrInvalidConfig) && s.router.noRouteBase == old(s.router.noRouteBase)
+//@   ensures installed: handler != nil ==> result == nil && s.router.noRouteBase == handler
+
+//@ func WithNoMethodHandler$1 props C19
+//@   requires s.router != nil
+//@   modifies s.router.noMethod, s.router.handleMethodNotAllowed
+//@   ensures rejected: handler == nil ==> result != nil && errIs(result, ErrInvalidConfig) && s.router.noMethod == old(s.router.noMethod) && s.router.handleMethodNotAllowed == old(s.router.handleMethodNotAllowed)
+//@   ensures installed: handler != nil ==> result == nil && s.router.noMethod == handler && s.router.handleMethodNotAllowed
+
+//@ func WithOptionsHandler$1 props C19
+//@   requires s.router != nil
+//@   modifies s.router.autoOptions, s.router.handleOptions
+//@   ensures rejected: handler == nil ==> result != nil && errIs(result, ErrInvalidConfig) && s.router.autoOptions == old(s.router.autoOptions) && s.router.handleOptions == old(s.router.handleOptions)
+//@   ensures installed: handler != nil ==> result == nil && s.router.autoOptions == handler && s.router.handleOptions
+
+//@ func WithNoMethod$1 props C19
+//@   requires s.router != nil
+//@   modifies s.router.handleMethodNotAllowed
+//@   ensures result == nil && s.router.handleMethodNotAllowed == enable
+
+//@ func WithAutoOptions$1 props C19
+//@   requires s.router != nil
+//@   modifies s.router.handleOptions
+//@   ensures result == nil && s.router.handleOptions == enable
+
 //@ func WithAnnotation$1 props C19
 //@   implements routeOptionFunc.call
 //@   requires s.route != nil
@@ -67,12 +96,14 @@ package fox
 //@   ensures fresh: result1 == nil ==> result0 != nil && fresh(result0)
 //@   ensures identity: result1 == nil ==> same(result0.pattern, pattern) && result0.hbase == handler && 0 <= result0.hostSplit && result0.hostSplit < len(pattern) && pattern[result0.hostSplit] == '/' && result0.psLen == cnt(pattern, len(pattern))
 //@   ensures all-options: result1 == nil ==> optCount[result0] == old(optCount[result0]) + len(opts)
+//@   ensures inherits: result1 == nil && len(opts) == 0 ==> result0.ignoreTrailingSlash == fox.ignoreTrailingSlash && result0.redirectTrailingSlash == fox.redirectTrailingSlash && result0.clientip == fox.clientip && len(result0.mws) == len(fox.mws)
 //@   ensures chains: result1 == nil ==> result0.hself == rchain(result0.mws, handler, 0, true) && result0.hall == rchain(result0.mws, handler, 0, false)
 //@   assert-at call RouteOption.applyRoute#1 : in-order: arg_self == opts[optCount[rte] - old(optCount[rte])]
 //@   loop 1: invariant -1 <= rangeindex && rangeindex < len(opts) && rte != nil && fresh(rte) && optCount[rte] == old(optCount[rte]) + rangeindex + 1
 //@   loop 1: invariant same(rte.pattern, pattern) && rte.hbase == handler && rte.psLen == n && rte.hostSplit == endHost
 //@   loop 1: invariant forall k int :: {rte.mws[k]} 0 <= k && k < len(rte.mws) ==> rte.mws[k].m != nil
 //@   loop 1: invariant unshared: fresh(rte.mws) || cap(rte.mws) == len(rte.mws)
+//@   loop 1: invariant inherits: rangeindex == -1 ==> rte.ignoreTrailingSlash == fox.ignoreTrailingSlash && rte.redirectTrailingSlash == fox.redirectTrailingSlash && rte.clientip == fox.clientip && len(rte.mws) == len(fox.mws)
 //@   loop 1: decreases len(opts) - rangeindex
 
 //@ -- the two in-package implementations of RouteOption delegate to the wrapped function value
